@@ -252,3 +252,42 @@ def replay_source(common, src):
                 print("  mirror        : ..." + text[max(0, i - 150):i + 250])
                 bad += 1
     return bad
+
+
+def flags_for_sources(common, sources):
+    """Additive helper (second audit; used by C08 and C04): feeds the given [(label, source text)] through the
+    REAL parser + desugarer (harness `liftfull`, mode desugared) and the extracted mirror driver, and returns
+    (rows, statuses): rows = [{"label", "src", "def", "impl", "model", "flags"}] - one per definition handed to
+    lifting, flags = the tab-separated `KEY value` fields of coq/extract/liftfull.ml (WF, SK, PV, SD, SN, SKD) -
+    and statuses = Counter of sources that gave no definition (PARSE error / SUGAR panic / EMPTY / malformed).
+    Nothing is dropped silently: every source is either in rows or in statuses."""
+    import collections
+    hb = common.build_harness("liftfull")
+    mb = common.build_model("liftfull")
+    lines = [c18gen.escape(s) for _, s in sources]
+    impl = common.run_lines(hb, [], lines, shards=common.NPROC) if lines else []
+    if len(impl) != len(lines):
+        raise common.BuildError("liftfull engine: output length mismatch", "%d %d" % (len(impl), len(lines)))
+    statuses = collections.Counter()
+    defs = []
+    for (label, src), line in zip(sources, impl):
+        f = split_fields(line)
+        if isinstance(f, str):
+            statuses[" ".join(f.split(" ")[:2])] += 1
+            continue
+        for d, r in f:
+            defs.append((label, src, d, r))
+    uniq = {}
+    for _, _, d, _ in defs:
+        uniq.setdefault(d, len(uniq))
+    ulist = sorted(uniq, key=uniq.get)
+    umodel = common.run_lines(mb, [], ulist, shards=common.NPROC) if ulist else []
+    if len(umodel) != len(ulist):
+        raise common.BuildError("liftfull engine: model output length mismatch", "%d %d" % (len(umodel), len(ulist)))
+    rows = []
+    for label, src, d, r in defs:
+        m = umodel[uniq[d]]
+        mp = m.split("\t")
+        rows.append({"label": label, "src": src, "def": d, "impl": r, "model": mp[0],
+                     "flags": dict(x.split(" ", 1) for x in mp[1:] if " " in x)})
+    return rows, statuses
